@@ -87,14 +87,9 @@ theorem C19_isolation_identity (cfg : Cfg) (now0 : Int) (ops : List Op) (now : I
       | nil => exact Or.inl rfl
       | cons a t => exact Or.inr (hall rfl ▸ hi)
     · intro hch
-      have := hc hch
+      have := after_false' (hc hch)
       rw [hts] at this
-      unfold after before at this
-      simp only [Login.info] at this
-      by_cases h0 : lg.nooa = 0
-      · simp [h0] at this
-      · simp [h0] at this
-        exact ⟨h0, by omega⟩
+      exact this
 
 /-- Information is returned (with the default expiry check) only until its not-on-or-after time. -/
 theorem C19_expiry (cfg : Cfg) (now0 : Int) (ops : List Op) (now : Int) (s : Subj) (i : Idp) (x : Info)
@@ -102,13 +97,9 @@ theorem C19_expiry (cfg : Cfg) (now0 : Int) (ops : List Op) (now : Int) (s : Sub
   obtain ⟨_, hinv, _⟩ := run_ok cfg ops { now := now0 } { now := now0 } (inv_init now0)
   obtain ⟨e, he, hx, hc⟩ := cacheGet_info h
   obtain ⟨_, hts⟩ := hinv.live s i e x he hx
-  have := hc rfl
+  have := after_false' (hc rfl)
   rw [hts] at this
-  unfold after before at this
-  by_cases h0 : x.nooa = 0
-  · simp [h0] at this
-  · simp [h0] at this
-    exact ⟨h0, by omega⟩
+  exact this
 
 /-! ### nothing after logout -/
 
@@ -122,6 +113,17 @@ theorem C19_no_info_after_logout (cfg : Cfg) (st : St) (ops : List Op) (s : Subj
     isLoggedIn (exec cfg st ops).db now s = false := by
   have hn := (Dict.not_mem_keys_iff _ _).mp (absent_exec (cfg := cfg) ops st h hops)
   refine ⟨by simp [cacheGet, hn], by simp [getIdentity, hn], by simp [isLoggedIn, getIdentity, hn]⟩
+
+/-- State in which `handle_logout_response` re-enters `do_logout`: the answered record is gone, the
+    issuer is taken off the shared list object. -/
+private def reentry (st : St) (rid : ReqId) (rec : Rec) (x : Idp) : St :=
+  { st with pending := Dict.del rid st.pending, heap := Dict.set rec.cell ((heapGet st.heap rec.cell).erase x) st.heap }
+
+private theorem cont_eq {cfg : Cfg} {st : St} {rid : ReqId} {rec : Rec} {x : Idp}
+    (hrec : Dict.get? rid st.pending = some rec) (hL : heapGet st.heap rec.cell ≠ [x])
+    (hx : x ∈ heapGet st.heap rec.cell) :
+    handleResponse cfg st (some rid) x = doLogout cfg (reentry st rid rec x) rec.subj rec.cell rec.expire :=
+  handleResponse_cont hrec hL hx
 
 /-! ### logout requests name the subject -/
 
@@ -163,22 +165,19 @@ theorem C19_request_names_subject_reentry (cfg : Cfg) (st : St) (rid : ReqId) (r
     | none => rw [handleResponse_done_none hrec hL hd] at hr; cases hr
     | some db' => rw [handleResponse_done_some hrec hL hd] at hr; cases hr
   · by_cases hx : x ∈ heapGet st.heap rec.cell
-    · rw [handleResponse_cont hrec hL hx] at hr
+    · rw [cont_eq hrec hL hx] at hr
       cases hdl : deadlinePassed st.now rec.expire with
       | true =>
-        have : emitted (doLogout cfg { st with pending := Dict.del rid st.pending,
-            heap := Dict.set rec.cell ((heapGet st.heap rec.cell).erase x) st.heap } rec.subj rec.cell rec.expire).2 = [] := by
-          simp only [doLogout, hdl, if_true, localLogout]
+        have : emitted (doLogout cfg (reentry st rid rec x) rec.subj rec.cell rec.expire).2 = [] := by
+          simp only [doLogout, reentry, hdl, if_true, localLogout]
           cases cacheDelete st.db rec.subj <;> rfl
         rw [this] at hr
         cases hr
       | false =>
-        obtain ⟨ls, out, hdo, hpost, hem⟩ := doLogout_live (cfg := cfg)
-          (st := { st with pending := Dict.del rid st.pending,
-                           heap := Dict.set rec.cell ((heapGet st.heap rec.cell).erase x) st.heap })
+        obtain ⟨ls, out, hdo, hpost, hem⟩ := doLogout_live (cfg := cfg) (st := reentry st rid rec x)
           (s := rec.subj) (cell := rec.cell) (expire := rec.expire) hdl
         rw [hdo] at hr
-        simp only [heapGet_set_self] at hpost
+        simp only [reentry, heapGet_set_self] at hpost
         rcases hpost.sent r (hem r hr) with h | ⟨_, h2, h3, h4, _⟩
         · cases h
         · exact ⟨h3, h2, h4⟩
@@ -218,32 +217,27 @@ theorem C19_session_ends_exactly (cfg : Cfg) (st : St) (rid : ReqId) (rec : Rec)
       subst h1
       exact ⟨Or.inr rfl, by simp [hdel, hL]⟩
   · by_cases hx : x ∈ heapGet st.heap rec.cell
-    · rw [handleResponse_cont hrec hL hx]
-      have hh := doLogout_db cfg
-        { st with pending := Dict.del rid st.pending,
-                  heap := Dict.set rec.cell ((heapGet st.heap rec.cell).erase x) st.heap }
-        rec.subj rec.cell rec.expire
+    · rw [cont_eq hrec hL hx]
+      have hh := doLogout_db cfg (reentry st rid rec x) rec.subj rec.cell rec.expire
       cases hdl : deadlinePassed st.now rec.expire with
       | true =>
         cases hd : cacheDelete st.db rec.subj with
         | none =>
-          have : (doLogout cfg { st with pending := Dict.del rid st.pending,
-              heap := Dict.set rec.cell ((heapGet st.heap rec.cell).erase x) st.heap } rec.subj rec.cell rec.expire).1.db
-              = st.db := by simp [doLogout, hdl, localLogout, hd]
+          have : (doLogout cfg (reentry st rid rec x) rec.subj rec.cell rec.expire).1.db = st.db := by
+            simp [doLogout, reentry, hdl, localLogout, hd]
           rw [this]
           exact ⟨Or.inl rfl, by simp [cacheDelete_none hd]⟩
         | some db' =>
           obtain ⟨h1, _⟩ := cacheDelete_some hd
-          have : (doLogout cfg { st with pending := Dict.del rid st.pending,
-              heap := Dict.set rec.cell ((heapGet st.heap rec.cell).erase x) st.heap } rec.subj rec.cell rec.expire).1.db
-              = Dict.del rec.subj st.db := by simp [doLogout, hdl, localLogout, hd, h1]
+          have : (doLogout cfg (reentry st rid rec x) rec.subj rec.cell rec.expire).1.db = Dict.del rec.subj st.db := by
+            simp [doLogout, reentry, hdl, localLogout, hd, h1]
           rw [this]
           exact ⟨Or.inr rfl, by simp [hdel, hx]⟩
       | false =>
         rcases hh with h | ⟨_, h⟩
         · rw [h]
           exact ⟨Or.inl rfl, by simp [hL, hdl]⟩
-        · simp only at h
+        · simp only [reentry] at h
           rw [hdl] at h
           cases h
     · rw [handleResponse_value hrec hL hx]
